@@ -1,11 +1,125 @@
+import TinsModel.Fields.Model
 import Driver.Util
-/- line-protocol driver for property C15 (stub until the area is built) -/
+/- line-protocol driver for property C15 (header field accessors):
+     init <Class> <image hex> <mask hex>     set <field> <decimal | x<hex bytes>>
+   model mode prints  r=<..> get=<all getters> hdr=<image> ser=<image & ~mask>  exactly like harness/c15_fields.cpp;
+   spec mode reads `<op> ||| <implementation line>` and judges it with the oracle of Fields/Model.lean. -/
 namespace Driver.C15
-open Driver
+open Driver Tins.Fields
 
-def step (st : Unit) (_line : String) : Unit × String := (st, "unimplemented")
-def specStep (st : Unit) (_line : String) : Unit × String := (st, "unimplemented")
-def initModel : Unit := ()
-def initSpec : Unit := ()
+def beNat (bs : List UInt8) : Nat := bs.foldl (fun a b => a * 256 + b.toNat) 0
+def leNat (bs : List UInt8) : Nat := bs.foldr (fun b a => a * 256 + b.toNat) 0
+def natBE (n : Nat) (X : Nat) : List UInt8 := (List.range n).map (fun i => UInt8.ofNat ((X >>> (8 * (n - 1 - i))) % 256))
+def natLE (n : Nat) (X : Nat) : List UInt8 := (List.range n).map (fun i => UInt8.ofNat ((X >>> (8 * i)) % 256))
+
+def ofBytes (o : Order) (bs : List UInt8) : Nat := match o with | .be => beNat bs | .le => leNat bs
+def toBytes (o : Order) (n X : Nat) : List UInt8 := match o with | .be => natBE n X | .le => natLE n X
+def hexOf (o : Order) (n X : Nat) : String := if n == 0 then "" else toHex (toBytes o n X)
+
+def showVal (k : Cls) (r : Row) (v : Nat) : String :=
+  match r.kind with
+  | .num => toString v
+  | .bytes => "x" ++ hexOf k.order (r.spec.width / 8) v
+
+def parseVal (k : Cls) (s : String) : Option Nat :=
+  if s.startsWith "x" then (parseHex (s.drop 1).toString).map (ofBytes k.order) else s.toNat?
+
+structure MState where
+  cls : Option Cls := none
+  X : Nat := 0
+  mask : Nat := 0
+
+def showState (k : Cls) (res : String) (X mask : Nat) : String :=
+  let gs := (rowsOf k.name).map (fun r => match (accOf k r.fld) with
+    | some a => showVal k r (a.get X)
+    | none => "?")
+  s!"r={res} get={joinWith "," gs} hdr={hexOf k.order k.len X} ser={hexOf k.order k.len (serOf X mask)}"
+
+def step (st : MState) (line : String) : MState × String :=
+  match words line with
+  | ["init", c, img, msk] =>
+    match classOf c, parseHex img, parseHex msk with
+    | some k, some ib, some mb =>
+      if ib.length != k.len || mb.length != k.len then ({ st with cls := none }, "bad-op") else
+      let X := ofBytes k.order ib
+      let m := ofBytes k.order mb
+      ({ cls := some k, X := X, mask := m }, showState k "init" X m)
+    | _, _, _ => ({ st with cls := none }, "bad-op")
+  | ["set", f, vs] =>
+    match st.cls with
+    | none => (st, "bad-op")
+    | some k =>
+      match rowOf k.name f, parseVal k vs with
+      | some r, some v =>
+        if r.access != .rw then (st, "bad-op") else
+        match setStep k f v st.X with
+        | .ok X' => ({ st with X := X' }, showState k "ok" X' st.mask)
+        | .valueTooLarge => (st, showState k "value_too_large" st.X st.mask)
+        | .domain => (st, showState k "domain" st.X st.mask)
+        | .unmodelled => (st, "unmodelled")
+      | _, _ => (st, "bad-op")
+  | _ => (st, "bad-op")
+
+def initModel : MState := {}
+
+/-! spec mode -/
+structure OState where
+  cls : Option Cls := none
+  mask : Nat := 0
+  vals : List (Row × Nat) := []
+  ser : Nat := 0
+  ok : Bool := false
+
+def kv (ws : List String) (key : String) : Option String :=
+  ws.findSome? (fun w => if w.startsWith (key ++ "=") then some ((w.drop (key.length + 1)).toString) else none)
+
+/-- parse the implementation's answer: result, getter values (per row of the class), serialisation -/
+def parseOut (k : Cls) (out : String) : Option (String × List (Row × Nat) × Nat) := do
+  let ws := words out
+  let res ← kv ws "r"
+  let gs ← kv ws "get"
+  let ser ← kv ws "ser"
+  let rs := rowsOf k.name
+  let items := gs.splitOn ","
+  if items.length != rs.length then none
+  let vals ← (rs.zip items).mapM (fun (r, s) => (parseVal k s).map (fun v => (r, v)))
+  let sb ← parseHex ser
+  if sb.length != k.len then none
+  pure (res, vals, ofBytes k.order sb)
+
+def specStep (st : OState) (line : String) : OState × String :=
+  match line.splitOn " ||| " with
+  | [op, out] =>
+    match words op with
+    | ["init", c, _, msk] =>
+      match classOf c, parseHex msk with
+      | some k, some mb =>
+        let m := ofBytes k.order mb
+        if m != k.derivedMask then ({ st with ok := false }, "violates mask-is-not-the-specified-derived-set") else
+        match parseOut k out with
+        | some (_, vals, ser) =>
+          let st' : OState := { cls := some k, mask := m, vals := vals, ser := ser, ok := true }
+          match wireGetterCheck k m ser vals with
+          | some s => (st', s)
+          | none => (st', "ok")
+        | none => ({ st with ok := false }, if out.startsWith "FAULT" || out == "SKIP" then "unspecified" else "violates unparsable-output")
+      | _, _ => ({ st with ok := false }, "unspecified")
+    | ["set", f, vs] =>
+      match st.cls, st.ok with
+      | some k, true =>
+        match rowOf k.name f, parseVal k vs with
+        | some r, some v =>
+          match parseOut k out with
+          | some (res, vals, ser) =>
+            if res == "domain" then (st, "unspecified") else
+            let verdict := oracleSet k r v res st.mask st.vals vals st.ser ser
+            ({ st with vals := vals, ser := ser }, verdict)
+          | none => ({ st with ok := false }, if out.startsWith "FAULT" || out == "SKIP" then "unspecified" else "violates unparsable-output")
+        | _, _ => (st, "unspecified")
+      | _, _ => (st, "unspecified")
+    | _ => (st, "unspecified")
+  | _ => (st, "bad-line")
+
+def initSpec : OState := {}
 
 end Driver.C15
